@@ -8,8 +8,11 @@ meta = {}
 for e in eng.values():
     meta.update(e.get("props_meta", {}))
 props = [json.loads(l)["id"] for l in open(os.path.join(V, "properties.jsonl"))]
+claimed_engines = json.load(open(os.path.join(V, "claimed_engines.json")))
 claimed = {}
 for name, e in eng.items():
+    if name not in claimed_engines:
+        continue
     for p in e["props"]:
         if e.get("claimed", True) and p not in e.get("unclaimed_props", []):
             claimed[p] = name
@@ -34,7 +37,7 @@ man = {
     "version": 1,
     "setup_cmd": "./check build",
     "hooks": hooks,
-    "engines": [{"name": n, "path": "sim/" + e["pkg"], "serves_properties": e["props"], "kind_free_text": e.get("kind", "deterministic simulation harness (go test binary, one process per seeded run)")} for n, e in eng.items()],
+    "engines": [{"name": n, "path": "sim/" + e["pkg"], "serves_properties": e["props"], "kind_free_text": e.get("kind", "deterministic simulation harness (go test binary, one process per seeded run)")} for n, e in eng.items() if n in claimed_engines],
     "checks": checks,
     "not_applicable": na,
     "notes": "All checks: ./check <ID> quick|thorough; exit 0 held / 1 VIOLATION / 2 infrastructure. Replays under /verif/replays. See DESIGN.md.",
